@@ -11,13 +11,13 @@
      drift : runs the Model alongside (same step functions, the logged thread / call as the only input) and
              compares ObsOf(model state) with every logged observation; the first mismatch is reported with the
              name of the first differing field.
-   Total: never stops at a bad trace; prints  VERDICT|id|position|clause|driftpos|field  per trace, then DONE|n. *)
+   Total: never stops at a bad trace; prints  VERDICT|id|clause@position,...|driftpos|field  per trace, then DONE|n. *)
 EXTENDS RespLife, Json, IOUtils, TLCExt
 
 Traces == JsonDeserialize(IOEnv.TRACE_FILE)
 
-VARIABLES tid, l, bad, badpos, drift, dfield
-tvars == <<tid, l, bad, badpos, drift, dfield>>
+VARIABLES tid, l, bad, drift, dfield      \* bad: sequence of <<clause, position>>, first failure of every clause
+tvars == <<tid, l, bad, drift, dfield>>
 
 Fields == <<"have", "own", "shutset", "ulen", "gen", "hfp", "hflag", "csock", "sock", "fedn", "kern", "pclosed",
             "slots", "pooled", "puts", "deliv", "nrerr", "ndisp", "nshok", "nint", "nboom", "io">>
@@ -46,12 +46,19 @@ DiffField(o, m) == LET d == {k \in 1..NF : o[Fields[k]] # m[Fields[k]]}
                    ELSE IF e # {} THEN TFields[CHOOSE k \in e : \A j \in e : k <= j]
                    ELSE "none"
 
+RECURSIVE SetToSeq(_)
+SetToSeq(S) == IF S = {} THEN <<>> ELSE LET x == CHOOSE y \in S : TRUE IN <<x>> \o SetToSeq(S \ {x})
+\* append the clauses of `fails` not yet noted, with their position
+Note(b, fails, pos) == LET known == {b[k][1] : k \in 1..Len(b)}
+                           fresh == SetToSeq(fails \ known) IN
+                       b \o [k \in 1..Len(fresh) |-> <<fresh[k], pos>>]
+
 First(i) == LET o == O(i, 1) m == ObsOf(ModelInitS(i), ModelInitT(i)) IN
-            [bad |-> StateRule(o), drift |-> IF DiffField(o, m) = "none" THEN 0 ELSE 1, dfield |-> DiffField(o, m)]
+            [bad |-> Note(<<>>, StateFails(o), 1), drift |-> IF DiffField(o, m) = "none" THEN 0 ELSE 1, dfield |-> DiffField(o, m)]
 
 TInit == /\ tid = 1 /\ l = 1
          /\ sh = ModelInitS(1) /\ th = ModelInitT(1)
-         /\ bad = First(1).bad /\ badpos = (IF First(1).bad = "ok" THEN 0 ELSE 1)
+         /\ bad = First(1).bad
          /\ drift = First(1).drift /\ dfield = First(1).dfield
 
 \* the Model's successor for the logged step, or "disabled"
@@ -64,13 +71,11 @@ Advance ==
   /\ l < Len(Traces[tid].obs)
   /\ l' = l + 1 /\ tid' = tid
   /\ LET o == O(tid, l) o2 == O(tid, l + 1)
-         tr == TransRule(o, o2)
-         c == IF tr # "ok" THEN tr ELSE StateRule(o2)
+         c == TransFails(o, o2) \cup StateFails(o2)
          st == Traces[tid].steps[l]
          ms == ModelStep(st[1], st[2])
          df == IF ms.ok THEN DiffField(o2, ObsOf(ms.s, ms.T)) ELSE "disabled"
-     IN /\ bad' = IF bad # "ok" THEN bad ELSE c
-        /\ badpos' = IF bad # "ok" THEN badpos ELSE IF c # "ok" THEN l + 1 ELSE 0
+     IN /\ bad' = Note(bad, c, l + 1)
         /\ IF drift # 0 THEN UNCHANGED <<sh, th, drift, dfield>>
            ELSE IF df = "none" THEN sh' = ms.s /\ th' = ms.T /\ UNCHANGED <<drift, dfield>>
            ELSE drift' = l + 1 /\ dfield' = df /\ UNCHANGED <<sh, th>>
@@ -83,16 +88,18 @@ EndClause(i) ==
   ELSE IF Traces[i].probe = "bad" THEN "ProbeServed"
   ELSE "ok"
 
-Verdict(i) == LET e == IF bad # "ok" THEN bad ELSE EndClause(i)
-                  p == IF bad # "ok" THEN badpos ELSE IF e # "ok" THEN l ELSE 0
-              IN PrintT("VERDICT|" \o Traces[i].id \o "|" \o ToString(p) \o "|" \o e \o "|" \o ToString(drift) \o "|" \o dfield)
+RECURSIVE Join(_)
+Join(b) == IF b = <<>> THEN "" ELSE b[1][1] \o "@" \o ToString(b[1][2]) \o (IF Len(b) > 1 THEN "," ELSE "") \o Join(Tail(b))
+Verdict(i) == LET e == EndClause(i)
+                  all == IF e = "ok" THEN bad ELSE Note(bad, {e}, l)
+              IN PrintT("VERDICT|" \o Traces[i].id \o "|" \o (IF all = <<>> THEN "ok" ELSE Join(all)) \o "|" \o ToString(drift) \o "|" \o dfield)
 
 NextTrace == /\ l = Len(Traces[tid].obs)
              /\ Verdict(tid)
              /\ tid < Len(Traces)
              /\ tid' = tid + 1 /\ l' = 1
              /\ sh' = ModelInitS(tid + 1) /\ th' = ModelInitT(tid + 1)
-             /\ bad' = First(tid + 1).bad /\ badpos' = (IF First(tid + 1).bad = "ok" THEN 0 ELSE 1)
+             /\ bad' = First(tid + 1).bad
              /\ drift' = First(tid + 1).drift /\ dfield' = First(tid + 1).dfield
 
 Last == /\ l = Len(Traces[tid].obs) /\ tid = Len(Traces)
